@@ -110,6 +110,10 @@ def gen_expr(rng, depth, allow_findings=False):
         sp = rng.choice(["H", "E", "C", "O", "D"] if not allow_findings else SPECIES)
         return f"n(idx_{sp})"
     k = rng.random()
+    if k < 0.08:
+        # grouping that matters: a divisor / subtrahend that is itself a quotient / difference
+        a, b, c = (gen_expr(rng, depth - 2, allow_findings) for _ in range(3))
+        return rng.choice(["{a}/({b}/{c})", "{a}-({b}-{c})", "{a}/({b}*{c})", "{a}*({b}+{c})", "{a}/({b}/{c})*{a}", "({a}-{b})/({b}+{c})"]).format(a=a, b=b, c=c)
     if k < 0.3:
         return gen_expr(rng, depth - 1, allow_findings) + rng.choice(["*", "/", "*", " * "]) + gen_expr(rng, depth - 1, allow_findings)
     if k < 0.45:
@@ -223,6 +227,8 @@ def run(res, info):
         check_rate(res, model, gen_expr(rng, rng.randint(1, 4)), ("gen", i), rng)
     for i in range(n // 4):
         check_rate(res, model, gen_expr(rng, rng.randint(1, 4), allow_findings=True), ("gen-findings", i), rng)
+    for s in ["Tgas/(Te/T32)", "1.d-9/(Tgas/3.d2)", "Tgas-(Te-T32)", "Tgas/(exp(Te)/T32)", "sqrt(Tgas/(Te/T32))", "Tgas/(n(idx_H)/Te)"]:
+        check_rate(res, model, s, ("fixed", s), rng)
     for s in ["a**b**c", "2.0**3**2", "Tgas**2**0.5", "-1.0e0**2", "2.0*-1.5**2", "n(idx_H2)", "n(idx_Hp)*n(idx_E)", "n(idx_HEpp)", "n(idx_H)*n(idx_E)"]:
         s2 = s.replace("a", "Tgas").replace("b", "Te").replace("c", "T32") if s == "a**b**c" else s
         check_rate(res, model, s2, ("fixed", s), rng)
